@@ -591,7 +591,7 @@ class Check:
 
     def tasks(self, tier, seed):
         if tier == "quick":
-            t = [{"kind": "rand", "seed": seed * 1000 + i, "n": 60} for i in range(24)]
+            t = [{"kind": "rand", "seed": seed * 1000 + i, "n": 60} for i in range(20)]
             t += [{"kind": "enum", "seed": seed * 1000 + 700 + i, "sets": 1, "stride": 9, "offset": i} for i in range(2)]
             # the multi-step writes of a resolution sit at the end of the operation: enumerate that part densely
             t += [{"kind": "enum", "seed": seed * 1000 + 800 + i, "sets": 1, "stride": 1, "offset": 0, "tail": 0.22,
